@@ -160,7 +160,9 @@ func checkC07(r *core.Run) {
 			key := core.ShortKey(with.Obj) + " nested scope (context already carries a transaction) -> " + core.ShortKey(cp.Callee)
 			// every path to the begin step either knows the incoming context carries no transaction, or has
 			// switched to a fresh context carrying the xid (a path where that is unknown, e.g. a narrowed guard, fails)
-			r.Check(cp.Before.Has("false:isglobal") || cp.Before.Has("rebind") && cp.Before.Has("setxid") && !cp.Before.Maybe("mutate:pre"), "C07.isolation", key, w.Pos(cp.Call.Pos()),
+			// the scope's own variable on every path (a transaction-less caller must not see what the scope does
+			// either: it would end the transaction this scope began a second time), carrying the xid when there is one
+			r.Check(cp.Before.Has("rebind") && !cp.Before.Maybe("mutate:pre") && (cp.Before.Has("false:isglobal") || cp.Before.Has("setxid")), "C07.isolation", key, w.Pos(cp.Call.Pos()),
 				"the nested scope works on a fresh context carrying the same xid", "a nested scope mutates the caller's shared ContextVariable (no fresh seata context carrying the xid before begin): the inner scope overwrites the outer scope's role/xid/name, so the outer launcher skips its own second phase or ends the wrong transaction")
 		}
 		if n == 0 {
@@ -181,6 +183,7 @@ func checkC07(r *core.Run) {
 			}
 		}
 	}
+	c07FreshInit(r, "C07.isolation")
 	c07RPC(r)
 	r.Floor("C07.table", 11)
 	r.Floor("C07.join", 3)
@@ -623,4 +626,64 @@ func reachingCallee(w *core.World, fn *core.FuncInfo, call *ast.CallExpr, argIdx
 		sp.Analyze(fn)
 	}
 	return out
+}
+
+// c07FreshInit: tm.InitSeataContext always answers a context whose ContextVariable is newly allocated. Every caller
+// that isolates a scope (WithGlobalTx for a nested scope, the rpc integrations, TCC phase two) relies on that: a
+// variable shared with the incoming context lets the inner scope overwrite the outer scope's xid, role and name.
+func c07FreshInit(r *core.Run, rule string) {
+	w := r.W
+	f := r.Anchor(rule, w.Func("pkg/tm", "", "InitSeataContext"), "tm.InitSeataContext")
+	if f == nil {
+		return
+	}
+	info := f.Pkg.TypesInfo
+	fresh := func(e ast.Expr) bool {
+		e = ast.Unparen(e)
+		if u, ok := e.(*ast.UnaryExpr); ok && u.Op == token.AND {
+			_, isLit := ast.Unparen(u.X).(*ast.CompositeLit)
+			return isLit
+		}
+		if c, ok := e.(*ast.CallExpr); ok {
+			if id, ok := c.Fun.(*ast.Ident); ok && id.Name == "new" {
+				return true
+			}
+		}
+		return false
+	}
+	n := 0
+	ast.Inspect(f.Decl.Body, func(x ast.Node) bool {
+		rs, ok := x.(*ast.ReturnStmt)
+		if !ok || len(rs.Results) != 1 {
+			return true
+		}
+		n++
+		r.Sites++
+		key := core.ShortKey(f.Obj) + " answers a context with a newly allocated variable"
+		c, ok := ast.Unparen(rs.Results[0]).(*ast.CallExpr)
+		if !ok || core.Callee(info, c) == nil || core.Callee(info, c).Name() != "WithValue" || len(c.Args) != 3 {
+			r.Bad(rule, key, w.Pos(rs.Pos()), "this return hands back '"+core.ExprString(rs.Results[0])+"', not context.WithValue(ctx, key, <new variable>): the caller keeps working on the incoming context's variable, so a nested scope overwrites the enclosing scope's xid / role / name")
+			return true
+		}
+		bad := ""
+		v := ast.Unparen(c.Args[2])
+		if !fresh(v) {
+			id, isId := v.(*ast.Ident)
+			lv, _ := info.Uses[id].(*types.Var)
+			if !isId || lv == nil {
+				bad = core.ExprString(v)
+			} else {
+				for _, d := range localDefs(f, lv) {
+					if !fresh(d.rhs) {
+						bad = lv.Name() + " = " + core.ExprString(d.rhs)
+					}
+				}
+			}
+		}
+		r.Check(bad == "", rule, key, w.Pos(rs.Pos()), "&ContextVariable{} on every path", "the variable stored into the new context can be an existing one ("+bad+"): a nested scope then shares, and overwrites, the enclosing scope's xid / role / name, and the enclosing initiator skips or misdirects its own second phase")
+		return true
+	})
+	if n == 0 {
+		r.Undecided(rule, core.ShortKey(f.Obj)+" returns", w.Pos(f.Decl.Pos()), "no return found")
+	}
 }
